@@ -14,7 +14,11 @@
    observables of the tree under test are compared with Level A for every probe:
    __LINE__/__FILE__ in `chibicc -E`, the same printed by the compiled program, the
    `file:line:` prefix of a diagnostic provoked at a probe, and the .loc record preceding the
-   probe's asm marker in `chibicc -S` (the last two only in #line-free files).
+   probe's asm marker in `chibicc -S` (the last two also before, between and after #line directives and in
+   headers: a directive governs only what follows it).
+3. The end of input as a position: files that are CUT OFF (unclosed function body / unterminated macro
+   invocation / incomplete directive on the last line) behind every body of <= 2 units; the diagnostic
+   the compiler must give names the presumed number of the last physical line or that number + 1.
 """
 import json, os, re, shutil, subprocess
 import vt
@@ -28,6 +32,7 @@ EOL = {"LF": "\n", "CRLF": "\r\n", "CR": "\r"}
 GROUP = {"G1": "#if 1", "G0": "#if 0", "GE": "#else", "GX": "#endif"}      # conditional groups around the other units
 PROLOGUE = ["X", "D", "IM", "X"]
 EPILOGUE = ["X"]
+TAIL = {"none": EPILOGUE, "body": ["X"], "invoc": ["TV"], "dir": ["TD"]}      # TailOf in Lines.tla: how the main file ends
 DEFINE = '#define M(t) printf("%s %d %s\\n", t, __LINE__, __FILE__)'
 FIRST = "int printf(const char *, ...); static int qf(int x) { return x; } static int qg(int x, int y) { return x + y; }"
 
@@ -41,7 +46,7 @@ def probe(pid, broken=False):
     return '%s("%%s %%d %%s\\n", "%s", __LINE__, __FILE__); asm("# %s");' % (fn, pid, pid)
 
 
-def unit_lines(k, tag, u, pos, broken=None):
+def unit_lines(k, tag, u, pos, broken=None, trunc="none"):
     """physical lines of a unit (mirror of UnitLines in Lines.tla); pos = 'first'/'mid'/'last' for X"""
     pid = "%s%s%d" % (tag, k, u)
     v = "v_%s_%d" % (re.sub(r"\W", "_", tag), u)
@@ -49,6 +54,8 @@ def unit_lines(k, tag, u, pos, broken=None):
     if k in GROUP:
         return [GROUP[k]]
     if k == "X":
+        if pos == "last" and trunc == "body":
+            return ["r += 1;"]          # and no `}`: the function body is never closed
         return [{"first": FIRST, "mid": "int main(void) { int r = 0;", "last": "return r & 0; }"}[pos]]
     q = ["qf(%d)" % magic(u, j) for j in range(3)]
     return {
@@ -59,6 +66,7 @@ def unit_lines(k, tag, u, pos, broken=None):
         "D": [DEFINE], "U": ['M("%s");' % pid], "V": ["M(", '"%s"' % pid, ");"],
         "L": ["#line 100"], "F": ['#line 200 "foo.c"'], "L50": ["#line 50"],
         "DO": ["#define OUT(t) M(t)"], "W": ['OUT("%s");' % pid],
+        "TV": ["M(", '"%s"' % pid], "TD": ["#if 1 +"],       # the file ends inside an invocation / a directive's operand
         "MB": ["r += %s +" % q[0], "%s;" % q[1]], "MC": ["r += qg(%s," % q[0], "%s);" % q[1]],
         "MK": ["r += (%s," % q[0], "%s);" % q[1]], "MT": ["r += %s ?" % q[0], "%s :" % q[1], "%s;" % q[2]],
     }.get(k) or ['#include "%s"' % HDR[k]]
@@ -72,14 +80,14 @@ def pad_targets(npad, variant):
     return [4096 * spacing * (j + 1) + delta[(j + variant) % 4] for j in range(npad)]
 
 
-def render(units, tag, eol, final, main=False, broken=None, pad=0, variant=0):
+def render(units, tag, eol, final, main=False, broken=None, pad=0, variant=0, trunc="none"):
     lines = []
     e = EOL[eol]
     off = 0
     targets = pad_targets(pad, variant)
     for i, k in enumerate(units):
         pos = "first" if i == 0 else ("last" if i == len(units) - 1 else "mid")
-        ul = unit_lines(k, tag, i + 1, pos if main else None, broken)
+        ul = unit_lines(k, tag, i + 1, pos if main else None, broken, trunc)
         if main and pad and len(PROLOGUE) <= i < len(PROLOGUE) + pad:
             ul = ["//" + "c" * (targets[i - len(PROLOGUE)] - off - 2)]      # its terminator starts exactly at the target
         lines += ul
@@ -96,19 +104,20 @@ def closers(body):
 
 
 def all_units(b):
-    return PROLOGUE + ["C"] * b.get("pad", 0) + b["body"] + closers(b["body"]) + EPILOGUE
+    return PROLOGUE + ["C"] * b.get("pad", 0) + b["body"] + closers(b["body"]) + TAIL[b.get("trunc", "none")]
 
 
 def materialise(b, d, broken=None):
     pad = b.get("pad", 0)
     units = all_units(b)
-    txt, n = render(units, "m", b["eol"], b["final"], main=True, broken=broken, pad=pad, variant=b.get("variant", 0))
+    txt, n = render(units, "m", b["eol"], b["final"], main=True, broken=broken, pad=pad, variant=b.get("variant", 0),
+                    trunc=b.get("trunc", "none"))
     if n != b["nphys"]:
         raise Infra("renderer and Lines.tla disagree on the number of physical lines (%d vs %d) for %s" % (n, b["nphys"], b["body"]))
     os.makedirs(d, exist_ok=True)
     open(d + "/main.c", "w", newline="").write(txt)
     for h, hu in HDR_UNITS.items():
-        open(d + "/" + h, "w", newline="").write(render(hu, h, b["eol"], b["final"])[0])
+        open(d + "/" + h, "w", newline="").write(render(hu, h, b["eol"], b["final"], broken=broken)[0])
 
 
 def rl(cmd, d, timeout=60, cpu_s=20):
@@ -194,10 +203,6 @@ def real_file(pid):
     return "main.c" if pid.startswith("m") else pid.split(".h")[0] + ".h"
 
 
-def has_line_directive(b, f):
-    return any(k in ("L", "F") for k in b["body"]) if f == "main.c" else f == "hl.h"
-
-
 def reject_class(b):
     """root-cause tag of a rejected file: a #line directive (of the main file or of hl.h) inside an open conditional group"""
     depth = 0
@@ -211,7 +216,13 @@ def reject_class(b):
     return ""
 
 
-def classify(b, exp, got):
+def same_file(obs, e, name):
+    """__FILE__ is the presumed name (6.10.4); a diagnostic or a debug record denotes the file of the token, by its
+    presumed name (gcc) or by the name it was opened under (chibicc: error_tok and .file print File.name)"""
+    return name == e[2] or (obs in ("loc", "diag") and name == real_file(e[0]))
+
+
+def classify(b, exp, got, obs="E"):
     """compare probe lists; returns list of (sig suffix, detail)"""
     out = []
     if got is None:
@@ -219,31 +230,72 @@ def classify(b, exp, got):
     if [e[0] for e in exp] != [g[0] for g in got]:
         return [("probe-set", "expected probes %s got %s" % ([e[0] for e in exp], [g[0] for g in got]))]
     for e, g in zip(exp, got):
-        if (e[1], e[2]) == (g[1], g[2]):
+        if e[1] == g[1] and same_file(obs, e, g[2]):
             continue
+        named = same_file(obs, e, g[2])
         k, governed = e[3], e[4]       # governed: position fixed by a preceding #line in the probe's own file (Level A's g)
         dev = g[1] - e[1]
         if k == "SP":
-            cls = "splice-continuation" if dev == -1 and g[2] == e[2] else "splice-other"
+            cls = "splice-continuation" if dev == -1 and named else "splice-other"
         elif governed:
-            cls = "line-directive-offbyone" if dev == 1 and g[2] == e[2] else "line-directive-other"
+            cls = "line-directive-offbyone" if dev == 1 and named else "line-directive-other"
         else:
-            cls = "line-shift" if g[2] == e[2] else "file-name"
+            cls = "line-shift" if named else "file-name"
         out.append((cls, "%s expected %s:%d got %s:%d" % (e[0], e[2], e[1], g[2], g[1])))
     return out
 
 
 def expected(b, obs):
-    exp = [(e["id"], e["line"], e["file"], e["k"], e["g"]) for e in b["exp"]]
-    if obs == "loc":
-        exp = [e for e in exp if e[3] in ("P", "KP", "SP") + MKINDS and not has_line_directive(b, real_file(e[0]))]
+    exp = [(e["id"], e["line"], e["file"], e["k"], e["g"]) for e in b["exp"] if e["k"] != "EOF"]
+    if obs == "loc":        # also before, between and after #line directives: a directive governs what follows it
+        exp = [e for e in exp if e[3] in ("P", "KP", "SP") + MKINDS]
     else:
         exp = [e for e in exp if e[3] not in MKINDS]
     return exp
 
 
+def classify_eof(b, got):
+    """a diagnostic attached to the end of input: the presumed number E of the last physical line, or E + 1"""
+    e = [x for x in b["exp"] if x["k"] == "EOF"][0]
+    if got is None:
+        return "no-diagnostic", e
+    name, line = got
+    if name not in (e["file"], "main.c"):
+        return "file-name", e
+    if line in (e["line"], e["line"] + 1):
+        return None, e
+    if not e["g"]:
+        return "end-position", e
+    if line == e["phys"] + 1:
+        return "line-directive-ignored", e          # finding C18-eof-ignores-line: the physical L + 1 although a #line is in force
+    if line == e["line"] + 2:
+        return "line-directive-offbyone", e         # finding D16-line on top of "the line after the last"
+    return "line-directive-other", e
+
+
+def check_eof(tree, root, i, b, oracle=False):
+    """cut-off file: the only observable is the diagnostic the compiler must give at the end of input"""
+    d = "%s/t%d" % (root, i)
+    materialise(b, d)
+    cc = [tree + "/chibicc", "-I" + tree + "/include"] if not oracle else ["cc", "-w"]
+    got, err = obs_diag(cc, d, gcc=oracle)
+    cls, e = classify_eof(b, got)
+    res = []
+    if cls:
+        tie = None
+        if not oracle and b["eol"] != "CR":         # gcc does not take a lone CR as a line end: no oracle there
+            gg, _ = obs_diag(["cc", "-w"], d, gcc=True)
+            tie = classify_eof(b, gg)[0] is None
+        res.append(("eof", cls, "file cut off (%s) after physical line %d: the end-of-input diagnostic must name %s:%d or :%d, got %s %s" % (
+            b["trunc"], e["phys"], e["file"], e["line"], e["line"] + 1, got, err.strip()[-200:]), tie))
+    shutil.rmtree(d, ignore_errors=True)
+    return res
+
+
 def check_one(tree, root, i, b, full, seed, oracle=False):
     """returns list of (obs, cls, detail, tie) ; tie = True if gcc agrees with the spec"""
+    if b.get("trunc", "none") != "none":
+        return check_eof(tree, root, i, b, oracle)
     d = "%s/s%d" % (root, i)
     materialise(b, d)
     cc = [tree + "/chibicc", "-I" + tree + "/include"] if not oracle else ["cc", "-w"]
@@ -261,27 +313,31 @@ def check_one(tree, root, i, b, full, seed, oracle=False):
             exp = sorted(exp, key=lambda e: e[0])
         if got is not None and name == "loc":
             got = sorted((g for g in got if g[0] in {e[0] for e in exp}), key=lambda g: g[0])
-        for cls, det in classify(b, exp, got):
+        for cls, det in classify(b, exp, got, name):
             tie = None
-            if not oracle:
+            if not oracle and b["eol"] != "CR":         # gcc does not take a lone CR as a line end: no oracle there
                 gg, _ = fn(gcc + ["-g"], d, magic_ids(b)) if name == "loc" else fn(gcc, d)
                 if gg is not None and name == "loc":
                     gg = sorted((g for g in gg if g[0] in {e[0] for e in exp}), key=lambda g: g[0])
-                tie = not classify(b, exp, gg)
+                tie = not classify(b, exp, gg, name)
             res.append((name, cls, det + " " + err, tie))
-    if full and not has_line_directive(b, "main.c"):
-        cands = [e for e in b["exp"] if e["file"] == "main.c" and e["k"] in ("P", "KP")]
+    if full:        # a probe of the main file or of a header, before, between or after #line directives
+        cands = [e for e in expected(b, "E") if e[3] in ("P", "KP")]
         if cands:
             e = cands[(seed + i) % len(cands)]
-            materialise(b, d, broken=e["id"])
+            materialise(b, d, broken=e[0])
+
+            def judge(g):
+                if g is None:
+                    return [("no-diagnostic", "")]
+                return classify(b, [e], [(e[0], g[1], g[0])], "diag")
             got, err = obs_diag(cc, d, gcc=oracle)
-            if got != (e["file"], e["line"]):
+            for cls, det in judge(got):
                 tie = None
-                if not oracle:
+                if not oracle and b["eol"] != "CR":
                     gg, _ = obs_diag(gcc, d, gcc=True)
-                    tie = gg == (e["file"], e["line"])
-                res.append(("diag", "line-shift" if got else "no-diagnostic",
-                            "diagnostic at %s expected %s:%d got %s %s" % (e["id"], e["file"], e["line"], got, err), tie))
+                    tie = not judge(gg)
+                res.append(("diag", cls, "diagnostic at %s expected %s:%d got %s %s %s" % (e[0], e[2], e[1], got, det, err), tie))
     shutil.rmtree(d, ignore_errors=True)
     return res
 
@@ -295,13 +351,14 @@ def replay_lines(ctx, tree, behs, full_every=1):
 
     for i, res in vt.pmap(one, list(enumerate(behs))):
         b = behs[i]
-        ctx.note_case("lines:%s:%s:%s:%s:%s" % (",".join(b["body"]), b["eol"], b["final"], b.get("pad", 0), b.get("variant", 0)), nontrivial=len(b["exp"]) > 0)
+        ctx.note_case("lines:%s:%s:%s:%s:%s:%s" % (",".join(b["body"]), b["eol"], b["final"], b.get("pad", 0), b.get("variant", 0), b.get("trunc", "none")),
+                      nontrivial=len(b["exp"]) > 0)
         for obs, cls, det, tie in res:
             if tie is False:
                 ctx.oracle_disagreements += 1
                 continue
             ctx.report("lines:%s:%s" % (obs, cls), "file of units %s%s, line ending %s%s: %s" % (
-                b["body"], " behind %d padding lines (variant %d)" % (b["pad"], b.get("variant", 0)) if b.get("pad") else "",
+                all_units(b)[len(PROLOGUE) + b.get("pad", 0):] if obs == "eof" else b["body"], " behind %d padding lines (variant %d)" % (b["pad"], b.get("variant", 0)) if b.get("pad") else "",
                 b["eol"], "" if b["final"] else ", last line unterminated", det),
                 case=dict(kind="lines", beh=b, obs=obs, full=True))
     ctx.cov["traces_validated_against_impl"] += len(behs)
@@ -314,6 +371,7 @@ def run(ctx):
     ctx.phase("build done")
     out = os.path.join(ctx.scratch, "lines.ndjson")
     out2 = os.path.join(ctx.scratch, "long.ndjson")
+    out3 = os.path.join(ctx.scratch, "cut.ndjson")
     what = "splice/line-count/#line design departs from Level A beyond the two recorded deviations"
     with concurrent.futures.ThreadPoolExecutor(5) as pool:
         if q:
@@ -326,6 +384,9 @@ def run(ctx):
         c4 = pool.submit(ctx.tlc, "lines", "Lines", ctx.cfg("lines", "Lines_mc.cfg", MaxLen=2, LineInGroupFix=False), workers=1, count=False)
         rep = pool.submit(ctx.tlc_expect_ok, "lines", "Lines", ctx.cfg("lines", "Lines_repaired.cfg", MaxLen=2),
                           "the repaired design (#line delta = n - line - 1) does not give Level A positions", workers=1)
+        c5 = pool.submit(ctx.tlc, "lines", "Lines", ctx.cfg("lines", "Lines_mc.cfg", MaxLen=1, DeltaStamp='"file"'), workers=1, count=False)
+        c6 = pool.submit(ctx.tlc, "lines", "Lines", ctx.cfg("lines", "Lines_mc.cfg", MaxLen=1, NumberEof=False), workers=1, count=False)
+        c7 = pool.submit(ctx.tlc, "lines", "Lines", ctx.cfg("lines", "Lines_mc.cfg", MaxLen=1, RecordedEofDev=False), workers=1, count=False)
         c2cfg = ctx.cfg("lines", "Lines_mc.cfg", MaxLen=2)
         c2txt = open(c2cfg).read().replace("INVARIANTS SameButRecorded SameProbes", "INVARIANTS SameAll")
         open(c2cfg, "w").write(c2txt)
@@ -335,6 +396,9 @@ def run(ctx):
         # long files: the same units behind 8 padding lines whose ends fall on and around the 4096-byte read boundaries
         gen2 = pool.submit(ctx.tlc, "lines", "Lines", ctx.cfg("lines", "Lines_gen.cfg", MaxLen=2, Pad=8, Seed=ctx.seed, Stride=19 if q else 2),
                            env=dict(OUT=out2), workers=2, timeout=1500)
+        # files that are cut off (the end of input as a position): the whole family is model-checked and emitted, the seed picks the replayed ones
+        gen3 = pool.submit(ctx.tlc, "lines", "Lines", ctx.cfg("lines", "Lines_gen.cfg", MaxLen=2, Truncs='{"body","invoc","dir"}'),
+                           env=dict(OUT=out3), workers=2, timeout=1500)
         g = gen.result()
         if not g.ok:
             ctx.report("tlc:Lines:gen:%s" % g.violated, "Lines.tla generation run violated %s" % g.violated,
@@ -363,6 +427,20 @@ def run(ctx):
         ctx.sample(dict(kind="long file", body=longs[0]["body"], line_ending=longs[0]["eol"],
                         padding_line_ends_at=pad_targets(8, longs[0]["variant"])))
         ctx.phase("long files done")
+        g3 = gen3.result()
+        if not g3.ok:
+            ctx.report("tlc:Lines:cut-off:%s" % g3.violated, "Lines.tla (files that are cut off) violated %s" % g3.violated,
+                       case=dict(kind="tlcout", out=g3.trace_text()[:3000]))
+        cuts = vt.read_ndjson(out3)
+        if len(cuts) < 9000:
+            raise Infra("Lines generator wrote only %d cut-off files" % len(cuts))
+        cuts.sort(key=lambda b: (b["trunc"], json.dumps(b, sort_keys=True)))       # stratified: every kind of end is sampled evenly
+        stride = 7 if q else 2
+        cuts = [b for i, b in enumerate(cuts) if (i + ctx.seed) % stride == 0]
+        replay_lines(ctx, tree, cuts)
+        ctx.sample(dict(kind="cut-off file", units=all_units(cuts[0]), ends=cuts[0]["trunc"], line_ending=cuts[0]["eol"],
+                        last_line_terminated=cuts[0]["final"], end_of_input=[e for e in cuts[0]["exp"] if e["k"] == "EOF"][0]))
+        ctx.phase("cut-off files done")
         for mc in mcs:
             mc.result()
         rep.result()
@@ -372,14 +450,21 @@ def run(ctx):
             raise Infra("sensitivity control failed: TLC accepts the tree's #line delta under the strict invariant")
         if c2.result().ok:
             raise Infra("sensitivity control failed: TLC accepts continuation-line probes (SameAll)")
+        if c5.result().ok:
+            raise Infra("sensitivity control failed: TLC accepts a #line delta taken from the File when preprocessing is over (not stamped per token)")
+        if c6.result().ok:
+            raise Infra("sensitivity control failed: TLC accepts an add_line_numbers that leaves the EOF token unnumbered")
+        if c7.result().ok:
+            raise Infra("sensitivity control failed: TLC accepts the tree's unstamped EOF token under the strict invariant")
         if c4.result().ok:
             raise Infra("sensitivity control failed: TLC accepts a read_line_marker that rejects #line inside an open conditional")
     ctx.assumptions += ["Level I (Lines.tla) is a hand transcription of tokenize.c/preprocess.c at the granularity of abstract characters",
                         "a lone CR is a line terminator (chibicc's documented choice; gcc differs, so CR files have no tie-break oracle)",
-                        "diagnostics and .loc records are judged only in files without #line"]
+                        "after `#line n \"f\"` a diagnostic or .loc record may name the file by its presumed name or by the name it was opened under; the line must be the presumed one",
+                        "the end of input is judged only in files whose last physical line holds a token (gcc names the last line that has one, chibicc the line after the last)"]
     return ctx.finish(
-        rule="case = one file (prologue + <=3 units over 27 kinds (conditional groups included; groups left open are closed) + epilogue, or <=2 units behind 8 padding lines ending at the 4096-byte read boundaries) x line ending x terminated/unterminated, with its four headers; every probe in it is compared on up to four observables (-E, compiled program, diagnostic prefix, .loc); non-trivial = at least one probe; distinct = distinct (unit sequence, line ending, termination)",
-        exhaustive=not q, extra=dict(scenarios_replayed=len(behs), long_file_scenarios_replayed=len(longs)))
+        rule="case = one file (prologue + <=3 units over 27 kinds (conditional groups included; groups left open are closed) + epilogue, or <=2 units behind 8 padding lines ending at the 4096-byte read boundaries, or <=2 units and the file cut off in one of three ways) x line ending x terminated/unterminated, with its five headers; every probe in it is compared on up to four observables (-E, compiled program, diagnostic prefix, .loc - the last two also around #line directives and in headers); a cut-off file is judged by the line of its end-of-input diagnostic; non-trivial = at least one probe; distinct = distinct (unit sequence, line ending, termination)",
+        exhaustive=not q, extra=dict(scenarios_replayed=len(behs), long_file_scenarios_replayed=len(longs), cut_off_files_replayed=len(cuts)))
 
 
 def replay(ctx, path):
